@@ -327,10 +327,11 @@ func (w *World) Partition(g *SibGroup) (string, map[string]*SibDiff, map[string]
 		tags = append(tags, m.Tag)
 	}
 	var classes [][]string
+	sem := map[string]*string{}
 	for _, t := range tags {
 		placed := false
 		for ci, c := range classes {
-			if CompareSiblings(toks[c[0]], toks[t], mem[c[0]], mem[t]) == nil {
+			if CompareSiblings(toks[c[0]], toks[t], mem[c[0]], mem[t]) == nil || w.semEqual(g, c[0], t, mem, sem) {
 				classes[ci] = append(classes[ci], t)
 				placed = true
 				break
@@ -369,4 +370,27 @@ func sortStrings(a []string) {
 			a[j], a[j-1] = a[j-1], a[j]
 		}
 	}
+}
+
+// semEqual is the fallback of the token comparison: the two members agree when their semantic signatures (SEMSIG)
+// are equal. Signatures are computed lazily and cached per member in sem (nil entry = not computable).
+func (w *World) semEqual(g *SibGroup, a, b string, mem map[string]FamilyMember, sem map[string]*string) bool {
+	get := func(t string) *string {
+		if s, ok := sem[t]; ok {
+			return s
+		}
+		var res *string
+		if f := g.Decls[t]; f != nil {
+			if s, ok := w.SemanticSig(f, mem[t]); ok {
+				res = &s
+			}
+		}
+		sem[t] = res
+		return res
+	}
+	sa, sb := get(a), get(b)
+	if os.Getenv("CADCHECK_DEV") != "" && sa != nil && sb != nil && *sa != *sb {
+		fmt.Fprintf(os.Stderr, "SEMSIG %s %s:\n%s\n--- %s:\n%s\n", g.Key, a, *sa, b, *sb)
+	}
+	return sa != nil && sb != nil && *sa == *sb
 }
